@@ -263,7 +263,7 @@ def run(prop, tier="quick", seed=0, replay_path=None):
     if todo:
         # a handful of open obligations get three times the budget; a flood of them (typically a changed function whose
         # invariants no longer fit) gets one more pass at the same budget so that the run stays within minutes
-        factor = 3 if len(todo) <= 12 else 1
+        factor = 3 if len(todo) <= 24 else 1
         if len(todo) > 48:
             todo = todo[:16]          # the rest stays undecided: the verdict (exit 2, or 1 if something replays) is the same
         results.update(solve.solve_all(todo, timeout_s=budget * factor, want_both=both, progress=progress, retry=False, retry_pass=True))
@@ -543,7 +543,7 @@ def main(argv=None):
         faulthandler.register(signal.SIGUSR1, all_threads=True)      # kill -USR1 <pid>: where is a slow run?
         # watchdog: an in-process z3 call that ignores its timeout must not hang the check for ever. After the wall limit the
         # stacks are dumped and the run ends as a checker error (exit 3) - never as a pass, never as a violation.
-        limit = float(os.environ.get("PYVC_WALL_LIMIT", "1500" if a.tier == "quick" else "21600"))
+        limit = float(os.environ.get("PYVC_WALL_LIMIT", "2400" if a.tier == "quick" else "21600"))
 
         def _bail():
             print("CHECKER-ERROR: wall limit of %ds exceeded; thread stacks follow" % limit, file=sys.stderr, flush=True)
